@@ -123,6 +123,8 @@ type VerifTable struct {
 	Name    string
 	Index   table.Index
 	Entries []types.Entry
+	// user keys of this table's own entries which the handle's bloom filter answers "not present" for (C16: must be empty)
+	Denied []string
 }
 
 func (lm *levelManager) verifTables() []VerifTable {
@@ -133,7 +135,14 @@ func (lm *levelManager) verifTables() []VerifTable {
 		for e := tables.Front(); e != nil; e = e.Next() {
 			th := e.Value.(tableHandle)
 			data := verifReadBlock(lm.fileName(level, th.levelIdx), th.dataBlockIndex.DataBlock)
+			var denied []string
+			for _, e := range data.Entries {
+				if u := types.ParseKey(e.Key); !th.filter.Contains(u) {
+					denied = append(denied, u)
+				}
+			}
 			res = append(res, VerifTable{
+				Denied:  denied,
 				Level:   level,
 				Idx:     th.levelIdx,
 				Name:    lm.fileName(level, th.levelIdx),
